@@ -62,6 +62,9 @@ pub fn pool() -> Vec<RVal> {
         RVal::DateTime("2019-12-31 19:00:00 -0500".into()),
         RVal::DateTime("2020-01-01 00:00:01 +0000".into()),
         RVal::DateTime("2020-01-01 05:30:00 +0530".into()),
+        // shown on 1 Jan but on another day in UTC (late evening west, early morning east)
+        RVal::DateTime("2020-01-01 23:30:00 -0200".into()),
+        RVal::DateTime("2020-01-01 00:30:00 +0200".into()),
         RVal::Empty,
         RVal::Blank,
         arr(vec![]),
@@ -83,6 +86,13 @@ pub fn pool() -> Vec<RVal> {
         obj(vec![("a", RVal::Int(1)), ("b", RVal::Int(2))]),
         obj(vec![("b", RVal::Int(2)), ("a", RVal::Int(1))]),
         obj(vec![("a", RVal::Int(1)), ("b", RVal::Int(3))]),
+        // same key set, entries pulling in opposite directions: the verdict must not depend on the
+        // order in which a hash map happens to yield the keys
+        obj(vec![("a", RVal::Int(2)), ("b", RVal::Int(1))]),
+        obj(vec![("p", RVal::Int(1)), ("q", RVal::Int(2)), ("r", RVal::Int(3)), ("s", RVal::Int(4))]),
+        obj(vec![("p", RVal::Int(4)), ("q", RVal::Int(3)), ("r", RVal::Int(2)), ("s", RVal::Int(1))]),
+        arr(vec![obj(vec![("a", RVal::Int(1)), ("b", RVal::Int(2))])]),
+        arr(vec![obj(vec![("a", RVal::Int(2)), ("b", RVal::Int(1))])]),
         obj(vec![
             ("a", RVal::Int(1)),
             ("b", RVal::Int(2)),
